@@ -179,90 +179,95 @@ func subjects() []*subject {
 		Others: []string{"Y", "Y'", "W", "W'", "Z", "X'"},
 	})
 	// 4. circuit breaker (error count 1, retry 1000 ms): open / half-open state and deadline
-	bx := func() *cb.Rule {
-		return &cb.Rule{Id: "X", Resource: "r", Strategy: cb.ErrorCount, RetryTimeoutMs: 1000, MinRequestAmount: 1, StatIntervalMs: 5000, Threshold: 1}
-	}
-	cbRules := func(edit string) []*cb.Rule {
-		var out []*cb.Rule
-		for _, n := range names(edit) {
-			var r *cb.Rule
-			switch n {
-			case "X":
-				r = bx()
-			case "X'":
-				r = bx()
-				r.Id, r.Threshold = "X'", 1e9
-			case "Y":
-				r = &cb.Rule{Id: "Y", Resource: "r", Strategy: cb.ErrorCount, RetryTimeoutMs: 1000, MinRequestAmount: 1, StatIntervalMs: 2000, Threshold: 1e9}
-			case "Y'":
-				r = &cb.Rule{Id: "Y", Resource: "r", Strategy: cb.ErrorCount, RetryTimeoutMs: 1000, MinRequestAmount: 1, StatIntervalMs: 2000, Threshold: 2e9}
-			case "W":
-				r = bx()
-				r.Id, r.Threshold = "W", 5e8
-			case "W'":
-				r = bx()
-				r.Id, r.Threshold = "W", 6e8
-			default:
-				panic("unknown rule name " + n)
-			}
-			out = append(out, r)
+	// second variant: a bucket count that does not divide the interval (the breaker then uses one bucket); the
+	// rule as written is what "field-for-field identical" refers to
+	for _, buckets := range []uint32{0, 3} {
+		buckets := buckets
+		bx := func() *cb.Rule {
+			return &cb.Rule{Id: "X", Resource: "r", Strategy: cb.ErrorCount, RetryTimeoutMs: 1000, MinRequestAmount: 1, StatIntervalMs: 5000, StatSlidingWindowBucketCount: buckets, Threshold: 1}
 		}
-		return out
-	}
-	out = append(out, &subject{
-		Name: "circuit-breaker",
-		Ops:  []string{"req-ok", "req-err", "start", "finish-ok", "tick(400)", "tick(1000)"},
-		Apply: func(st *runState, op int) string {
-			switch op {
-			case 0, 1:
-				e, blk := sentinel.Entry("r")
-				if blk != nil {
-					return "B"
+		cbRules := func(edit string) []*cb.Rule {
+			var out []*cb.Rule
+			for _, n := range names(edit) {
+				var r *cb.Rule
+				switch n {
+				case "X":
+					r = bx()
+				case "X'":
+					r = bx()
+					r.Id, r.Threshold = "X'", 1e9
+				case "Y":
+					r = &cb.Rule{Id: "Y", Resource: "r", Strategy: cb.ErrorCount, RetryTimeoutMs: 1000, MinRequestAmount: 1, StatIntervalMs: 2000, Threshold: 1e9}
+				case "Y'":
+					r = &cb.Rule{Id: "Y", Resource: "r", Strategy: cb.ErrorCount, RetryTimeoutMs: 1000, MinRequestAmount: 1, StatIntervalMs: 2000, Threshold: 2e9}
+				case "W":
+					r = bx()
+					r.Id, r.Threshold = "W", 5e8
+				case "W'":
+					r = bx()
+					r.Id, r.Threshold = "W", 6e8
+				default:
+					panic("unknown rule name " + n)
 				}
-				if op == 1 {
-					e.Exit(base.WithError(bizErr))
+				out = append(out, r)
+			}
+			return out
+		}
+		out = append(out, &subject{
+			Name: map[uint32]string{0: "circuit-breaker", 3: "circuit-breaker-odd-buckets"}[buckets],
+			Ops:  []string{"req-ok", "req-err", "start", "finish-ok", "tick(400)", "tick(1000)"},
+			Apply: func(st *runState, op int) string {
+				switch op {
+				case 0, 1:
+					e, blk := sentinel.Entry("r")
+					if blk != nil {
+						return "B"
+					}
+					if op == 1 {
+						e.Exit(base.WithError(bizErr))
+					} else {
+						e.Exit()
+					}
+					return "P"
+				case 2:
+					if len(st.live) >= 2 {
+						return "-"
+					}
+					e, blk := sentinel.Entry("r")
+					if blk != nil {
+						return "B"
+					}
+					st.live = append(st.live, e)
+					return "P"
+				case 3:
+					if len(st.live) == 0 {
+						return "-"
+					}
+					st.live[0].Exit()
+					st.live = st.live[1:]
+					return "x"
+				case 4:
+					return tickOp(400)()
+				}
+				return tickOp(1000)()
+			},
+			Load: func(edit string, per bool) {
+				rs := cbRules(edit)
+				var err error
+				if per {
+					_, err = cb.LoadRulesOfResource("r", rs)
 				} else {
-					e.Exit()
+					_, err = cb.LoadRules(append(append([]*cb.Rule{}, rs...), &cb.Rule{Id: "o", Resource: "other", Strategy: cb.ErrorCount, RetryTimeoutMs: 10, StatIntervalMs: 1000, Threshold: 5}))
 				}
-				return "P"
-			case 2:
-				if len(st.live) >= 2 {
-					return "-"
+				if err != nil {
+					panic(err)
 				}
-				e, blk := sentinel.Entry("r")
-				if blk != nil {
-					return "B"
-				}
-				st.live = append(st.live, e)
-				return "P"
-			case 3:
-				if len(st.live) == 0 {
-					return "-"
-				}
-				st.live[0].Exit()
-				st.live = st.live[1:]
-				return "x"
-			case 4:
-				return tickOp(400)()
-			}
-			return tickOp(1000)()
-		},
-		Load: func(edit string, per bool) {
-			rs := cbRules(edit)
-			var err error
-			if per {
-				_, err = cb.LoadRulesOfResource("r", rs)
-			} else {
-				_, err = cb.LoadRules(append(append([]*cb.Rule{}, rs...), &cb.Rule{Id: "o", Resource: "other", Strategy: cb.ErrorCount, RetryTimeoutMs: 10, StatIntervalMs: 1000, Threshold: 5}))
-			}
-			if err != nil {
-				panic(err)
-			}
-		},
-		Init:   []string{"[X]", "[Y,X]"},
-		Edits:  []string{"[X]", "[Y,X]", "[X,Y]", "[Y',X]", "[X,X]", "[X',X]", "[X,X']"},
-		Others: []string{"Y", "Y'", "W", "W'", "X'"},
-	})
+			},
+			Init:   []string{"[X]", "[Y,X]"},
+			Edits:  []string{"[X]", "[Y,X]", "[X,Y]", "[Y',X]", "[X,X]", "[X',X]", "[X,X']"},
+			Others: []string{"Y", "Y'", "W", "W'", "X'"},
+		})
+	}
 	// 5/6. hotspot QPS tokens and hotspot concurrency counters
 	hsRules := func(edit string, x func() *hotspot.Rule) []*hotspot.Rule {
 		var out []*hotspot.Rule
